@@ -114,6 +114,8 @@ pub async fn handle_did_change_text_document(
         .documents
         .write_changes_to_file(&uri, &params.content_changes)
         .await?;
+    #[cfg(fuellabs_sway_verif)]
+    crate::verif::point("change:written", state.verif_id());
 
     send_new_compilation_request(
         state,
